@@ -1,0 +1,107 @@
+//go:build verif
+
+/*
+ * Verification exports (add-only, compiled only with `-tags verif`): expose the unexported
+ * block / iterator internals of package table to the external verification harness.
+ */
+
+package table
+
+import (
+	"io"
+
+	"github.com/dgraph-io/badger/v4/fb"
+)
+
+// VerifNumBlocks returns the number of blocks in the table index.
+func (t *Table) VerifNumBlocks() int { return t.offsetsLength() }
+
+// VerifBlock reads block i through Table.block (decrypt, decompress, parse) and returns copies of
+// the index key, the checksummed payload (entries | entry offsets | count), the stored checksum
+// bytes and the parsed entry offsets.
+func (t *Table) VerifBlock(i int) (base, payload, checksum []byte, offs []uint32, eis int, err error) {
+	ko := t.verifOffsetKey(i)
+	b, err := t.block(i, false)
+	if err != nil {
+		return nil, nil, nil, nil, 0, err
+	}
+	defer b.decrRef()
+	payload = append([]byte{}, b.data...)
+	checksum = append([]byte{}, b.checksum...)
+	offs = append([]uint32{}, b.entryOffsets...)
+	return ko, payload, checksum, offs, b.entriesIndexStart, nil
+}
+
+func (t *Table) verifOffsetKey(i int) []byte {
+	var ko fb.BlockOffset
+	if !t.offsets(&ko, i) {
+		return nil
+	}
+	return append([]byte{}, ko.KeyBytes()...)
+}
+
+// ---- Iterator internals ----
+
+func (itr *Iterator) VerifNext()                  { itr.next() }
+func (itr *Iterator) VerifPrev()                  { itr.prev() }
+func (itr *Iterator) VerifSeekToFirst()           { itr.seekToFirst() }
+func (itr *Iterator) VerifSeekToLast()            { itr.seekToLast() }
+func (itr *Iterator) VerifSeek(key []byte)        { itr.seek(key) }
+func (itr *Iterator) VerifSeekForPrev(key []byte) { itr.seekForPrev(key) }
+
+// VerifState returns the error class (0 nil, 1 io.EOF, 2 other), bpos and the block iterator's idx.
+func (itr *Iterator) VerifState() (errClass, bpos, idx int) {
+	switch itr.err {
+	case nil:
+		errClass = 0
+	case io.EOF:
+		errClass = 1
+	default:
+		errClass = 2
+	}
+	return errClass, itr.bpos, itr.bi.idx
+}
+
+// ---- a stand-alone blockIterator over one block of a table ----
+
+type VerifBlockIter struct {
+	bi  blockIterator
+	blk *Block
+}
+
+func (t *Table) VerifNewBlockIter(i int) (*VerifBlockIter, error) {
+	b, err := t.block(i, false)
+	if err != nil {
+		return nil, err
+	}
+	v := &VerifBlockIter{blk: b}
+	v.bi.tableID = t.id
+	v.bi.blockID = i
+	v.bi.setBlock(b)
+	return v, nil
+}
+
+func (v *VerifBlockIter) Close()       { v.bi.Close() }
+func (v *VerifBlockIter) SetIdx(i int) { v.bi.setIdx(i) }
+func (v *VerifBlockIter) Seek(key []byte, fromCurrent bool) {
+	if fromCurrent {
+		v.bi.seek(key, current)
+	} else {
+		v.bi.seek(key, origin)
+	}
+}
+func (v *VerifBlockIter) Next()  { v.bi.next() }
+func (v *VerifBlockIter) Prev()  { v.bi.prev() }
+func (v *VerifBlockIter) First() { v.bi.seekToFirst() }
+func (v *VerifBlockIter) Last()  { v.bi.seekToLast() }
+
+// State returns copies of the iterator's fields.
+func (v *VerifBlockIter) State() (idx int, eof bool, key, val, base []byte, prevOverlap uint16, n int) {
+	return v.bi.idx, v.bi.err == io.EOF, append([]byte{}, v.bi.key...), append([]byte{}, v.bi.val...),
+		append([]byte{}, v.bi.baseKey...), v.bi.prevOverlap, len(v.bi.entryOffsets)
+}
+
+// ---- ConcatIterator ----
+
+// VerifIdx returns the index of the active table (-1 / len(tables) when none).
+func (s *ConcatIterator) VerifIdx() int { return s.idx }
